@@ -512,6 +512,13 @@ def run(ctx):  # noqa: F811
 
     _c01.r01_4_flatten(ctx)  # every branch target gets its label exactly once (shared with C01)
     r04_8_has_return(ctx)
+    from rules import c10 as _c10, c18 as _c18
+
+    _c01.r01_13_is_terminal(ctx)  # which blocks need no fall-through branch (shared with C01)
+    _c18.r18_1_annotations_delegate(ctx)  # annotation text reaches the program only as one-line comment ops (shared with C18)
+    _c18.r18_3_single_line_text(ctx)
+
+    _c10.r10_1_assignment(ctx)  # every load/store immediate is an index in 0..255: more slots than the AVM has are refused (shared with C10)
     return (
         "Static comparison of PyTeal's op and field tables (extracted from the syntax tree) with an independent AVM reference table; version/field gating and immediate "
         "provenance at every emission site; abstract evaluation of the final sweep, of assemble/assignSlot/resolveSubroutine(s), of label prefixing in flattenSubroutines and "
